@@ -137,7 +137,18 @@ impl SocksListener {
         let auth_server = PasswordAuth {
             required: self.auth.required,
         };
-        let request = SocksRequest::read_from(&mut socket, auth_server).await?;
+        let request = match SocksRequest::read_from(&mut socket, auth_server).await {
+            Ok(request) => request,
+            Err(e) => {
+                // the connection ends here: its record needs a terminal state and the reason
+                let failure = format!("{} cause: {:?}", e, e.cause);
+                ctx.write()
+                    .await
+                    .set_state(crate::context::ContextState::ErrorOccured)
+                    .set_error(failure);
+                return Err(e);
+            }
+        };
         debug!("request {:?}", request);
 
         ctx.write()
